@@ -6,8 +6,6 @@ import (
 	"fmt"
 	"os"
 	"testing"
-	"testing/synctest"
-	"time"
 )
 
 // TestVF_Debug: ad-hoc scenario runner used while triaging (not registered as a check).
@@ -16,30 +14,11 @@ func TestVF_Debug(t *testing.T) {
 		t.Skip("debug only")
 	}
 	vfGetPKI()
-	synctest.Test(t, func(t *testing.T) {
-		cfg := vfBaseCfg(vfSuiteByName("ECDSA-GCM128"), "ecdsa")
-		co, so := cfg.Options(nil, nil)
-		n := vfNewNet()
-		p, _ := vfNewPair(n, co, so)
-		fmt.Println(p.Handshake(time.Minute))
-		p.C.StartPump()
-		p.S.StartPump()
-		fmt.Println("rt:", vfRoundTrip(p, "a", time.Minute))
-		st, ok := p.S.Conn.ConnectionState()
-		fmt.Println("accepted:", st.acceptedRemoteSequence, ok, p.S.Conn.acceptedRemoteSequence.Load())
-		raw, err := st.MarshalBinary()
-		var st2 State
-		fmt.Println(err, st2.UnmarshalBinary(raw), st2.acceptedRemoteSequence, st2.remoteEpoch)
-		n2 := vfNewNet()
-		rc, err := ResumeWithOptions(&st2, n2.Endpoint("s2", vfServerAddr), vfAddr(vfClientAddr))
-		fmt.Println("resume", err)
-		fmt.Println("hs", rc.Handshake())
-		cm := vfCommon(rc)
-		fmt.Println("detectors", len(cm.ReplayDetector), rc.acceptedRemoteSequence.Load())
-		for seq := uint64(0); seq < 4; seq++ {
-			_, ok := cm.ReplayDetector[1].Check(seq)
-			fmt.Println("check", seq, ok)
-		}
-		p.Close()
-	})
+	res := vfNewResult("C16", "debug")
+	c := vfC16Case{Variant: "13", Phase: "established", Actor: "c", Action: "read-deadline", K: 0, Idx: 348}
+	vfBubbles(t, 6000, func(t *testing.T, i int) { vfC16Run(t, res, c) })
+	for _, v := range res.Violations {
+		fmt.Println(v.Signature, v.What)
+	}
+	fmt.Println("violations", len(res.Violations))
 }
